@@ -178,6 +178,73 @@ def make_tree(ctx, idx, size, want_links=None, mount=False):
     return g
 
 
+def tree_spec(root):
+    """everything needed to rebuild the tree (shape, types, attributes, link groups, mount points; file content only by size)"""
+    out = []
+    rootdev = os.lstat(root).st_dev
+    for dp, dn, fn in os.walk(root):
+        dn.sort()
+        pdev = os.lstat(dp).st_dev
+        for x in sorted(dn + fn):
+            p = dp + b"/" + x
+            st = os.lstat(p)
+            e = {"p": p[len(root) + 1:].hex(), "mode": st.st_mode, "uid": st.st_uid, "gid": st.st_gid, "mtime": st.st_mtime_ns // 10 ** 9,
+                 "rdev": st.st_rdev, "size": st.st_size, "grp": "%d:%d" % (st.st_dev, st.st_ino)}
+            if stat.S_ISLNK(st.st_mode):
+                e["tgt"] = os.readlink(p).hex()
+            if stat.S_ISDIR(st.st_mode) and st.st_dev != pdev:
+                e["mount"] = True
+            out.append(e)
+    return out
+
+
+class Rebuilt:
+    pass
+
+
+def rebuild_tree(ctx, spec, name):
+    root = (str(ctx.scratch / name)).encode()
+    os.mkdir(root)
+    t = Rebuilt()
+    t.root, t.dirs, t.files, t.mounts = root, [root], [], []
+    groups = {}
+    for i, e in enumerate(spec):
+        p = root + b"/" + bytes.fromhex(e["p"])
+        m = e["mode"]
+        if stat.S_ISDIR(m):
+            os.mkdir(p)
+            t.dirs.append(p)
+            if e.get("mount") and do_mount(ctx, p):
+                t.mounts.append(p)
+            continue
+        if e["grp"] in groups:
+            os.link(groups[e["grp"]], p, follow_symlinks=False)
+        elif stat.S_ISREG(m):
+            with open(p, "wb") as f:
+                f.write((b"%d:" % i + b"x" * e["size"])[:e["size"]])
+        elif stat.S_ISLNK(m):
+            os.symlink(bytes.fromhex(e.get("tgt", "")), p)
+        elif stat.S_ISFIFO(m):
+            os.mkfifo(p)
+        elif stat.S_ISSOCK(m):
+            sk = socket.socket(socket.AF_UNIX)
+            sk.bind(p)
+            sk.close()
+        else:
+            os.mknod(p, m, e["rdev"])
+        groups.setdefault(e["grp"], p)
+        t.files.append(p)
+    for e in reversed(spec):
+        p = root + b"/" + bytes.fromhex(e["p"])
+        if not stat.S_ISLNK(e["mode"]):
+            os.chmod(p, e["mode"] & 0o7777)
+        os.lchown(p, e["uid"], e["gid"])
+    for e in reversed(spec):
+        p = root + b"/" + bytes.fromhex(e["p"])
+        os.utime(p, ns=(e["mtime"] * 10 ** 9, e["mtime"] * 10 ** 9), follow_symlinks=False)
+    return t
+
+
 _MOUNTS = []
 
 
@@ -258,9 +325,25 @@ class Case:
         self.packfile_lines, self.glob, self.pre = packfile_lines, glob, pre or []
 
     def describe(self):
-        return {"kind": self.kind, "flags": self.flags, "defaults": self.d, "defs": self.defs, "glob": self.glob and
-                {k: (v.hex() if isinstance(v, bytes) else v) for k, v in self.glob.items()},
-                "packfile": [l.decode("latin1") for l in (self.packfile_lines or [])]}
+        hx = lambda v: ("hex:" + v.hex()) if isinstance(v, bytes) else v
+        return {"kind": self.kind, "flags": self.flags, "defaults": self.d, "defs": self.defs,
+                "glob": self.glob and {k: hx(v) for k, v in self.glob.items()},
+                "pre": [[hx(x) for x in e] for e in self.pre],
+                "packfile": [l.decode("latin1") for l in (self.packfile_lines or [])],
+                "tree_spec": tree_spec(self.tree.root)}
+
+    @staticmethod
+    def from_description(ctx, desc, tree, idx):
+        un = lambda v: bytes.fromhex(v[4:]) if isinstance(v, str) and v.startswith("hex:") else v
+        glob = desc.get("glob") and {k: un(v) for k, v in desc["glob"].items()}
+        pre = [tuple(un(x) for x in e) for e in desc.get("pre", [])]
+        lines = [l.encode("latin1") for l in desc.get("packfile", [])]
+        c = Case(desc["kind"], tree, desc["defaults"], desc["flags"], desc["defs"], packfile_lines=lines or None, glob=glob, pre=pre)
+        if desc["kind"] == "packfile":
+            c.packfile_path = (str(ctx.scratch / ("replay_pack%d.txt" % idx))).encode()
+            with open(c.packfile_path, "wb") as f:
+                f.write(b"\n".join(lines) + b"\n")
+        return c
 
 
 def harness_line(case, order, ctx):
@@ -435,11 +518,11 @@ def classify(ctx, case, res, facts, tag, counters):
     spec_ok = all(d == impl[0] for d in impl)                 # the property, on the implementation
     main_ok = all(x[1] == x[3] for x in res)                  # implementation = repaired model
     wit_ok = all(x[1] == x[4] for x in res)                   # implementation = model of the pinned code
-    replay = {"case": case.describe(), "tree_root_listing": listing(case.tree.root), "orders": [x[0] for x in res],
-              "impl": impl[:4], "model_sorted": [x[3] for x in res][:4], "model_unsorted": [x[4] for x in res][:4], "level": tag}
     counters["evaluations"] += len(res)
     if main_ok and spec_ok:
         return
+    replay = {"case": case.describe(), "tree_root_listing": listing(case.tree.root), "orders": [x[0] for x in res],
+              "impl": impl[:4], "model_sorted": [x[3] for x in res][:4], "model_unsorted": [x[4] for x in res][:4], "level": tag}
     if wit_ok and multi and hl_on and (not spec_ok or not main_ok):
         # the behaviour the witness theorem (Sqfs.Witness.C11) describes: which name of a link group becomes the
         # real file depends on the enumeration
@@ -659,13 +742,13 @@ def classify_tool(ctx, case, cmdline, res, facts, counters):
     spec_ok = all(s == shas[0] for s in shas)                  # the property itself: one image whatever the order
     main_ok = all(x[1] == x[3] for x in res)
     wit_ok = all(x[1] == x[4] for x in res)
-    replay = {"case": case.describe(), "cmdline": cmdline, "tree_root_listing": listing(case.tree.root), "orders": [x[0] for x in res],
-              "sha256": shas, "image": [x[1] for x in res][:3], "model_sorted": [x[3] for x in res][:3],
-              "model_unsorted": [x[4] for x in res][:3], "level": "tool"}
     counters["evaluations"] += len(res)
     counters["tool_runs"] += len(res)
     if main_ok and spec_ok:
         return
+    replay = {"case": case.describe(), "cmdline": cmdline, "tree_root_listing": listing(case.tree.root), "orders": [x[0] for x in res],
+              "sha256": shas, "image": [x[1] for x in res][:3], "model_sorted": [x[3] for x in res][:3],
+              "model_unsorted": [x[4] for x in res][:3], "level": "tool"}
     if wit_ok and multi and hl_on:
         counters["d16"] += 1
         ctx.violation(D16_KEY, "gensquashfs: sha256 of the image depends on the readdir order for multiply-linked files", replay)
@@ -761,7 +844,8 @@ def run(ctx):
             if nontrivial(x[1]):
                 distinct.add(vlib.sha(x[1] + repr(sorted(x[2].items()))))
         if len(samples) < 6:
-            samples.append({"case": case.describe(), "order": res[-1][0], "impl": res[-1][1][:300]})
+            dsc = case.describe(); dsc.pop("tree_spec", None)
+            samples.append({"case": dsc, "order": res[-1][0], "impl": res[-1][1][:300]})
 
     # 0. the witness of D16, replayed on the real code
     wt = witness_tree(ctx, 0)
@@ -843,8 +927,48 @@ def run(ctx):
 
 
 def replay(ctx, path):
+    """rebuild the recorded tree, re-run the recorded case under the recorded readdir orders against the current working tree"""
+    atexit.register(umount_all)
     body = json.loads(open(path).read())
-    print(json.dumps(body.get("replay", {}), indent=1)[:4000])
-    print("replay of generated trees: re-run `VERIF_SEED=%s tools/check C11 --tier %s`" % (body.get("seed"), body.get("tier")))
-    ctx.seed = body.get("seed", 0)
-    return run(ctx)
+    r = body.get("replay", {})
+    desc = r.get("case")
+    if not desc or "tree_spec" not in desc:
+        print(json.dumps(r, indent=1)[:4000])
+        print("no recorded input in this replay file (broken obligation / infrastructure): nothing to re-run")
+        return 1
+    tree = rebuild_tree(ctx, desc["tree_spec"], "replay_tree")
+    case = Case.from_description(ctx, desc, tree, 0)
+    facts = tree_facts(tree.root)
+    orders = r.get("orders") or ([r["order"]] if "order" in r else ["sorted", "reverse"])
+    counters = {"evaluations": 0, "d16": 0, "mismatch": 0, "tool_runs": 0, "other": 0, "harness_other": 0}
+    ctx.lean_build(["sqfsmodel"])
+    if r.get("level") == "tool" or "cmdline" in r:
+        tools = build_tools(ctx)
+        cmd = [c.replace(r.get("tree_root", "\0"), tree.root.decode("utf-8", "surrogateescape")) for c in r["cmdline"]]
+        for i, c in enumerate(cmd):                                   # re-point --pack-dir/-D/-F at the rebuilt inputs
+            if c in ("--pack-dir", "-D"):
+                cmd[i + 1] = tree.root.decode("utf-8", "surrogateescape")
+            if c == "-F":
+                cmd[i + 1] = case.packfile_path.decode()
+        res, crash = run_tool_case(ctx, tools, case, cmd, orders, use_san=False)
+        if crash:
+            print("REPRODUCED: tool aborted:", crash)
+            return 1
+        for x in res:
+            print("order %-16s sha256 %s" % (x[0], x[5]))
+        classify_tool(ctx, case, cmd, res, facts, counters)
+    else:
+        harness = build_harness(ctx)
+        res, crash = run_case(ctx, harness, case, orders)
+        if crash:
+            print("REPRODUCED: real scan path aborted:", crash)
+            return 1
+        for x in res:
+            print("order %-16s impl=%s model(repaired)=%s model(pinned)=%s" % (x[0], vlib.sha(x[1])[:12], vlib.sha(x[3])[:12], vlib.sha(x[4])[:12]))
+        classify(ctx, case, res, facts, "replay", counters)
+    umount_all()
+    if ctx.violations or ctx.known_hits:
+        print("REPRODUCED: %s" % (ctx.violations[0]["what"] if ctx.violations else ctx.known_hits[0]["key"]))
+        return 1
+    print("not reproduced: all orders give the same result and it agrees with the model")
+    return 0
